@@ -1479,6 +1479,7 @@ def c04_programs(tier, sd):
         ("foreach_if_field", [fe(["if", [[["<", a, lit(2)], [E(["==", IT, lit(1)])]]], [E(["==", IT, lit(2)])]])]),
         ("unconstrained_elems", []),
         ("foreach_in_idx", [fe(E(["in", IT, [["rng", ["*", IX, lit(10)], ["+", ["*", IX, lit(10)], lit(5)]], ["+", IX, lit(100)]]]))]),
+        ("foreach_partsel", [fe(E(["==", ["ps", F("l", ["idx", "i"]), 3, 2], ["ulit", 1, 2]]), E(["<", ["ps", k, 7, 4], ["ulit", 9, 4]])), E(["<=", SZ, lit(3)])]),
         ("foreach_notin_idx", [fe(E(["notin", IT, [["rng", lit(0), ["+", IX, lit(3)]]]])), fe(E(["<", IT, lit(12)]))]),
         ("product", [E(["<", ["product", ["l"]], lit(40)]), fe(E([">", IT, lit(1)]))]),
     ]
